@@ -95,8 +95,8 @@ func (dm *DMap) deleteBackupOnCluster(hkey uint64, key string) error {
 	return g.Wait()
 }
 
-// deleteOnCluster is not a thread-safe function
-func (dm *DMap) deleteOnCluster(hkey uint64, key string, f *fragment) error {
+// deleteOnPreviousOwners removes the key from the previous owners of its partition.
+func (dm *DMap) deleteOnPreviousOwners(hkey uint64, key string) error {
 	owners := dm.s.primary.PartitionOwnersByHKey(hkey)
 	if len(owners) == 0 {
 		panic("partition owners list cannot be empty")
@@ -107,7 +107,19 @@ func (dm *DMap) deleteOnCluster(hkey uint64, key string, f *fragment) error {
 		return err
 	}
 	verifhook.At("del.previous", dm.name, key)
+	return nil
+}
 
+// deleteOnCluster is not a thread-safe function
+func (dm *DMap) deleteOnCluster(hkey uint64, key string, f *fragment) error {
+	if err := dm.deleteOnPreviousOwners(hkey, key); err != nil {
+		return err
+	}
+	return dm.deleteOnOwnerAndReplicas(hkey, key, f)
+}
+
+// deleteOnOwnerAndReplicas is not a thread-safe function
+func (dm *DMap) deleteOnOwnerAndReplicas(hkey uint64, key string, f *fragment) error {
 	if dm.s.config.ReplicaCount != 0 {
 		err := dm.deleteBackupOnCluster(hkey, key)
 		if err != nil {
@@ -116,7 +128,7 @@ func (dm *DMap) deleteOnCluster(hkey uint64, key string, f *fragment) error {
 		verifhook.At("del.replicas", dm.name, key)
 	}
 
-	err = f.storage.Delete(hkey)
+	err := f.storage.Delete(hkey)
 	if err != nil {
 		return err
 	}
@@ -130,6 +142,17 @@ func (dm *DMap) deleteOnCluster(hkey uint64, key string, f *fragment) error {
 
 func (dm *DMap) deleteKey(key string) error {
 	hkey := partitions.HKey(dm.name, key)
+
+	// The previous owners first, and before this node's fragment is locked. A
+	// previous owner answers when the table it is moving to this node has
+	// arrived, and the table arrives only when this node's fragment is not
+	// locked: asking with the lock held makes the two wait for each other until
+	// one of the requests times out. If that was the move, the delete went on,
+	// was acknowledged, and the merge of the stale table brought the key back.
+	if err := dm.deleteOnPreviousOwners(hkey, key); err != nil {
+		return err
+	}
+
 	part := dm.getPartitionByHKey(hkey, partitions.PRIMARY)
 	f, err := dm.lockFragment(part)
 	if err != nil {
@@ -151,7 +174,7 @@ func (dm *DMap) deleteKey(key string) error {
 		}
 	}
 
-	return dm.deleteOnCluster(hkey, key, f)
+	return dm.deleteOnOwnerAndReplicas(hkey, key, f)
 }
 
 func (dm *DMap) deleteKeys(ctx context.Context, keys ...string) (int, error) {
